@@ -374,7 +374,7 @@ def univariate_cases(rng, n):
 
 
 def generate(rng, tier, corpus_only=False):
-    n = 1 if tier == "quick" else 12
+    n = 1 if tier == "quick" else 10
     cases = []
     cases += multivariate_cases(rng, 2500 * n)
     cases += integer_cases(rng, 120 * n)
